@@ -20,7 +20,7 @@ def is_nan(x):
 
 def body_raw(E, cu, ai, wait, stage, which, base):
     cu = concretize(cu, 0, 2)              # clean_up None / True / False
-    stage = concretize(stage, 0, 2)        # 0 none, 1 a result missing, 2 a result unreadable
+    stage = concretize(stage, 0, 3)        # 0 none, 1 a result missing, 2 a result unreadable, 3 a result over-long
     which = concretize(which, 1, 2)        # which batch is affected
     ai, wait = cbool(ai), cbool(wait)
     clean_up = [None, True, False][cu]
@@ -37,6 +37,8 @@ def body_raw(E, cu, ai, wait, stage, which, base):
         rfile = crop_dir(env) + "/results/xyz-result-%d.jbdmp" % which
         if stage == 2:
             env.make_unreadable(rfile)
+        if stage == 3:
+            env.write_obj(rfile, tuple(env.read_obj(rfile)) + (0,))     # the kind of dump check_bad repairs
         snap = env.snapshot(crop_dir(env))
         raised = None
         out = None
@@ -83,8 +85,8 @@ def body_raw(E, cu, ai, wait, stage, which, base):
             again = cp.Crop(name="t", parent_dir=env.parent).reap()
             return ok and again == ref and not env.exists(crop_dir(env))
 
-        # stage 2: unreadable result -> every reap raises and leaves everything in place
-        if raised != "other":
+        # stage 2 / 3: unreadable or over-long result -> every reap raises and leaves everything in place
+        if raised is None or raised == "wait":
             return False
         if not env.same_snapshot(snap, env.snapshot(crop_dir(env))):
             return False
@@ -105,7 +107,8 @@ def FSYM(**kw):
 
 
 def body_farmer(E, kind, stage, cu, base):
-    """stage: 0 none, 1 wrong number of var_names, 2 merge conflict with existing data, 3 saving raises"""
+    """stage: 0 none, 1 wrong number of var_names, 2 merge conflict with existing data, 3 saving raises,
+    4 an over-long result dump (surplus results are only noticed when the Reaper is closed)"""
     from .xrkit import fingerprint, same_fp, rows_of
     from .C15 import install_choice
     import xyzpy.gen.farming as fm
@@ -113,7 +116,7 @@ def body_farmer(E, kind, stage, cu, base):
     from xyzpy.gen.farming import Runner, Harvester, Sampler
 
     kind = concretize(kind, 0, 2)
-    stage = concretize(stage, 0, 3)
+    stage = concretize(stage, 0, 4)
     cu = concretize(cu, 0, 2)
     clean_up = [None, True, False][cu]
     eff_clean = True if clean_up is None else clean_up
@@ -154,6 +157,9 @@ def body_farmer(E, kind, stage, cu, base):
         for i in (1, 2):
             cp.grow(i, crop=crop, verbosity=0)
         cdir = env.parent + "/.xyz-fc"
+        if stage == 4:
+            rfile = cdir + "/results/xyz-result-2.jbdmp"
+            env.write_obj(rfile, tuple(env.read_obj(rfile)) + (0,))
         snap = env.snapshot(cdir)
         fails = [1]
         if stage == 3:
@@ -194,6 +200,10 @@ def body_farmer(E, kind, stage, cu, base):
                 out = crop.reap(clean_up=clean_up)
             elif stage == 2:
                 out = crop.reap(clean_up=clean_up, overwrite=True)
+            elif stage == 4:
+                crop.check_bad()
+                crop.grow_missing()
+                out = crop.reap(clean_up=clean_up)
             else:
                 out = crop.reap(clean_up=clean_up)
             if env.exists(cdir) != (not eff_clean):
@@ -224,18 +234,19 @@ _G = globals()
 
 CONDS = [
     make_cond(_G, "raw", body_raw, "cu:int ai:bool wait:bool stage:int which:int base:int",
-              ["0 <= cu <= 2 and 0 <= stage <= 2 and 1 <= which <= 2"], timeout=300,
+              ["0 <= cu <= 2 and 0 <= stage <= 3 and 1 <= which <= 2"], timeout=300,
               bounds="raw crop of 2 batches (sizes 2 and 1); clean_up None/True/False x allow_incomplete x wait x "
-                     "{no failure, result of batch 1|2 missing, result of batch 1|2 unreadable}; followed by the "
+                     "{no failure, result of batch 1|2 missing / unreadable / over-long}; followed by the "
                      "corrected retry (grow_missing / check_bad) and a second reap"),
 ]
 
 CONDS += split_conds(
-    _G, "farmer", body_farmer, "stage:int cu:int base:int", ["0 <= stage <= 3 and 0 <= cu <= 2"], "kind", [0, 1, 2],
+    _G, "farmer", body_farmer, "stage:int cu:int base:int", ["0 <= stage <= 4 and 0 <= cu <= 2"], "kind", [0, 1, 2],
     timeout=600,
     bounds="farmer-attached crops (kind 0 Runner, 1 Harvester, 2 Sampler) of 2 batches; failure injected at: "
            "dataset construction (wrong number of var_names), harvester merge conflict, saving the merged data "
-           "(save_ds / save_df raising once); clean_up None/True/False; then the corrected retry")
+           "(save_ds / save_df raising once), an over-long result dump; clean_up None/True/False; then the "
+           "corrected retry")
 CONFORMANCE = ("fakefs", "minixr", "minipd")
 
 ASSUMPTIONS = [
